@@ -90,20 +90,6 @@ theorem spec_render_commit (ns : NsMap) (s : Sel) (hs : s.ok ns = true) :
   obtain ⟨used, hu⟩ := usedNamespaces_ok ns (s.items ns) (Sel.items_allOk ns s hs)
   exact ⟨used, by simp [parseSel, hne, spec_render ns s hs, commit, hu, bind, Except.bind, pure, Except.pure]⟩
 
-/-- the kinds of all simple selectors of a skeleton, negated ones included -/
-def flatKinds (k : List (Kind × Bool) × List (Option Comb × List (Kind × Bool))) : List Kind :=
-  (k.1 ++ k.2.flatMap (·.2)).map (·.1)
-
-theorem countKinds_counting (l : List (Kind × Bool)) :
-    countKinds l = ((l.map (·.1)).count .id, (l.map (·.1)).count .cls + (l.map (·.1)).count .attr,
-                    (l.map (·.1)).count .type + (l.map (·.1)).count .pelem) := by
-  induction l with
-  | nil => rfl
-  | cons k t ih =>
-    obtain ⟨kd, ng⟩ := k
-    rw [countKinds_cons, ih]
-    cases kd <;> simp [add3, Kind.count, List.count_cons] <;> omega
-
 /-- **the specificity is what the property says**: `b` = number of ID selectors, `c` = number of class and
 attribute selectors, `d` = number of type selectors and pseudo-elements — counted over all compounds and
 including the arguments of `:not()`; universal selectors, pseudo-classes and `:not` itself count nothing. -/
